@@ -543,6 +543,37 @@ def corpus_C09(tier):
     return out
 
 
+def restart_trigger_class(rng, id0, count, diag=True):
+    """Restarts entered through EVERY trigger of the main loop - slow progress, noise level, auto-detection, a failed fit, rho at rhoend - and
+    not only through the common one.  The main loop carries a copy of the restart boilerplate per trigger (admit, count the run, reset the
+    radii): a copy that forgets one of the three is invisible unless its own trigger fires."""
+    AUTO = {"restarts.auto_detect.history": 3, "restarts.auto_detect.min_chgJ_slope": 0.0, "restarts.auto_detect.min_correl": 0.0}
+    out = []
+    trig = ["slow", "noise", "auto", "rhoend", "singular", "slow"]
+    for j in range(count):
+        t = trig[j % len(trig)]
+        nn = 2 + (j // 6) % 2
+        inst = dict(id=id0 + j, seed=int(rng.integers(0, 2 ** 31 - 1)), n=nn, m=nn + 1, prob="nl", restarts=["soft", "soft", "hard", "soft", "hardnew"][(j // 2) % 5], maxunsucc=4,
+                    rhoend=1e-6, rhobeg=0.5, maxfun=int(rng.integers(90, 220)), diag=diag, trigger=t)
+        up = {}
+        if t == "slow":
+            up = {"slow.max_slow_iters": int(rng.integers(2, 6)), "slow.thresh_for_slow": float(corpus._pick(rng, [0.3, 1.0, 3.0])), "slow.history_for_slow": int(rng.integers(1, 4))}
+        elif t == "noise":
+            inst.update(noise=True, noise_sd=1e-3)
+            up = {"noise.additive_noise_level": float(corpus._pick(rng, [0.02, 0.1, 0.5]))}
+        elif t == "auto":
+            inst.update(noise_sd=1e-2)
+            up = dict(AUTO)
+        elif t == "rhoend":
+            inst.update(rhoend=1e-2)
+        else:
+            inst.update(prob="ros3", n=2, m=2, fault=dict(k=int(rng.integers(5, 40)), kind=corpus._pick(rng, ["pinf", "huge"])), rhoend=1e-3)
+        if up:
+            inst["user_params"] = up
+        out.append(inst)
+    return out
+
+
 def corpus_C10(tier):
     rng = _rng(10)
     n = 200 if tier == "quick" else 4000
@@ -604,6 +635,7 @@ def corpus_C10(tier):
         b["seed"] = int(rng.integers(0, 2 ** 31 - 1))
         for mf in range(8, 100, 1 if (tier == "thorough" or bi == 2) else 3):      # soft restarts: every budget (a restart must be judged with 1, 2, 3 ... evaluations left)
             out.append(dict(b, id=700000 + 1000 * bi + mf, maxfun=mf))
+    out += restart_trigger_class(rng, 780000, 36 if tier == "quick" else 480, diag=False)
     return out
 
 
@@ -724,6 +756,7 @@ def corpus_C18(tier):
     for j in range(4 if tier == "quick" else 40):
         out.append(dict(id=810000 + j, seed=int(rng.integers(0, 2 ** 31 - 1)), n=3, m=4, prob="nl", restarts="soft", maxunsucc=4, incnpt=3, rhoend=1e-1, maxfun=150, diag=True,
                         user_params={"restarts.increase_npt_amt": 2}))
+    out += restart_trigger_class(rng, 880000, 36 if tier == "quick" else 480)
     return out
 
 
